@@ -2,6 +2,7 @@ package rules
 
 import (
 	"fmt"
+	"go/constant"
 	"go/token"
 	"go/types"
 	"strings"
@@ -309,16 +310,13 @@ func (c *Ctx) ruleSuccessWrites(id string, d *dstate, only string) {
 // StateBroadcastEvent appends on every iteration. An append that sits on one branch only (the entry that makes a chunk
 // overflow starts the next chunk but is not put into it) leaves an entry out of every broadcast.
 func (c *Ctx) ruleEventLoopsAppendEveryEntry(id string, d *dstate) {
-	ru := c.R.Rule(id, "every loop of wasp/distributed that appends to a repeated field of a StateBroadcastEvent does so on each of its iterations: the append dominates every back edge of the loop (an entry skipped by the loop that builds the events is in no broadcast and no snapshot)", "E2 dominance over back edges of event-building loops", 2)
+	ru := c.R.Rule(id, "every loop of wasp/distributed that appends to a repeated field of a StateBroadcastEvent does so on each of its iterations: the append dominates every back edge of the loop (an entry skipped by the loop that builds the events is in no broadcast and no snapshot)", "E2 dominance over back edges of event-building loops", 1)
 	n := 0
 	for _, f := range c.P.ModFuncs() {
 		if f.Package() != d.pkg || c.P.IsGenerated(f) {
 			continue
 		}
 		loops := core.Loops(f)
-		if len(loops) == 0 {
-			continue
-		}
 		for _, b := range f.Blocks {
 			for _, in := range b.Instrs {
 				st, ok := in.(*ssa.Store)
@@ -331,10 +329,57 @@ func (c *Ctx) ruleEventLoopsAppendEveryEntry(id string, d *dstate) {
 				}
 				cv, ok := core.Strip(st.Val).(*ssa.Call)
 				if !ok || core.CallOf(cv).Builtin() != "append" {
+					// the field is assigned once from a slice accumulated in a loop (deleted = append(deleted, &e))
+					seenApp := map[*ssa.Call]bool{}
+					depReaches(st.Val, func(v ssa.Value) bool {
+						ac, ok := v.(*ssa.Call)
+						if !ok || core.CallOf(ac).Builtin() != "append" || ac.Parent() != f || seenApp[ac] {
+							return false
+						}
+						seenApp[ac] = true
+						al := core.InnermostLoop(loops, ac.Block())
+						if al == nil {
+							return false
+						}
+						n++
+						c.R.Fn(c.fname(f))
+						key := fmt.Sprintf("slice assigned to %s accumulated in a loop of %s", fieldNameOf(fa.X.Type(), fa.Field), c.fname(f))
+						bad := ""
+						for _, pr := range al.Header.Preds {
+							if al.Blocks[pr] && !ac.Block().Dominates(pr) {
+								bad = "an iteration can reach the next one without appending its entry to the slice that becomes the event's field (back edge at " + c.P.Pos(lastPos(pr)) + ")"
+							}
+						}
+						ru.Check(bad == "", key, c.whereI(ac), "the append dominates every back edge", bad)
+						return false
+					})
 					continue
 				}
 				l := core.InnermostLoop(loops, b)
 				if l == nil {
+					// the loop body may be a helper: the append runs once per call, the call once per iteration
+					for _, site := range c.P.StaticCallers(f) {
+						caller := site.Parent()
+						cl := core.InnermostLoop(core.Loops(caller), site.Block())
+						if cl == nil {
+							continue
+						}
+						n++
+						c.R.Fn(c.fname(f))
+						key := fmt.Sprintf("append to %s in %s, called in a loop of %s", fieldNameOf(fa.X.Type(), fa.Field), c.fname(f), c.fname(caller))
+						bad := ""
+						for _, rb := range f.Blocks {
+							if _, isRet := rb.Instrs[len(rb.Instrs)-1].(*ssa.Return); isRet && !b.Dominates(rb) {
+								bad = "the helper can return without appending its entry to the event (" + c.P.Pos(lastPos(rb)) + ")"
+							}
+						}
+						for _, pr := range cl.Header.Preds {
+							if cl.Blocks[pr] && !site.Block().Dominates(pr) {
+								bad = "an iteration can reach the next one without calling the helper that appends its entry (back edge at " + c.P.Pos(lastPos(pr)) + ")"
+							}
+						}
+						ru.Check(bad == "", key, c.whereI(st), "the helper appends on every path and is called on every iteration", bad)
+					}
 					continue
 				}
 				n++
@@ -370,6 +415,112 @@ func (c *Ctx) ruleEventLoopsAppendEveryEntry(id string, d *dstate) {
 		}
 	}
 	ru.Anchor(n > 0, "a loop appending to a StateBroadcastEvent field")
+}
+
+// wildcardCharsTested lists which of '+' and '#' the value v (a branch condition) probes for: a bytes/strings search
+// with a constant needle containing them, or a comparison of a byte / rune with the constants 43 / 35 — directly or
+// inside a module function whose result v depends on.
+func wildcardCharsTested(v ssa.Value) (plus, hash bool) {
+	note := func(k *ssa.Const) {
+		if k == nil || k.Value == nil {
+			return
+		}
+		switch k.Value.Kind() {
+		case constant.String:
+			str := constant.StringVal(k.Value)
+			plus = plus || strings.Contains(str, "+")
+			hash = hash || strings.Contains(str, "#")
+		case constant.Int:
+			if n, ok := constant.Int64Val(k.Value); ok {
+				plus = plus || n == 43
+				hash = hash || n == 35
+			}
+		}
+	}
+	depReaches(v, func(w ssa.Value) bool {
+		switch x := w.(type) {
+		case *ssa.Call:
+			if g := x.Call.StaticCallee(); g != nil && g.Pkg != nil && (g.Pkg.Pkg.Path() == "bytes" || g.Pkg.Pkg.Path() == "strings") {
+				for _, a := range x.Call.Args {
+					if k, ok := core.Strip(a).(*ssa.Const); ok {
+						note(k)
+					}
+					// []byte("+#")
+					if cv, ok := core.Strip(a).(*ssa.Convert); ok {
+						if k, ok := cv.X.(*ssa.Const); ok {
+							note(k)
+						}
+					}
+				}
+			}
+		case *ssa.BinOp:
+			if x.Op == token.EQL || x.Op == token.NEQ {
+				for _, o := range []ssa.Value{x.X, x.Y} {
+					if k, ok := o.(*ssa.Const); ok {
+						if b, isB := k.Type().Underlying().(*types.Basic); isB && (b.Kind() == types.Uint8 || b.Kind() == types.Int32 || b.Kind() == types.UntypedRune) {
+							note(k)
+						}
+					}
+				}
+			}
+		}
+		return false
+	})
+	return
+}
+
+// ruleRetainedKeysLiteral implements C09-R11 (= C10-R7, C07-R9).
+func (c *Ctx) ruleRetainedKeysLiteral(id string, d *dstate) {
+	ru := c.R.Rule(id, "the retained store is keyed by literal topic names: every path of TopicsState.Set / Delete that writes the store has tested the topic for both wildcard characters, and the store is written on one outcome of that test only. The receiving side of a merge looks the local copy up by wildcard match, so an entry stored under a key containing '+' or '#' is refused by every peer that holds two matching topics — together with the rest of its batch — and the issuer lists what no peer can list", "E1 paths with package helpers inlined: must-pass-through a wildcard test, one polarity only", 2)
+	for _, m := range d.mutators {
+		if m.iface != "TopicsState" {
+			continue
+		}
+		f := m.fn
+		key := m.iface + "." + m.name + " refuses wildcard characters"
+		paths, err := c.pathsInlinedPkg(f, core.PathOpts{}, func(g *ssa.Function) bool { return d.mutatorOf(g) != nil })
+		if err != nil {
+			ru.Undecided(key, c.where(f, f), err.Error())
+			continue
+		}
+		nW, bad := 0, ""
+		polarity := map[ssa.Value]map[bool]bool{}
+		for _, p := range paths {
+			wrote := false
+			for _, pi := range p.Instrs() {
+				if pi.Deferred {
+					continue
+				}
+				if c.isStoreWrite(d, pi.In) {
+					wrote = true
+				}
+			}
+			if !wrote {
+				continue
+			}
+			nW++
+			plus, hash := false, false
+			for _, dd := range decisions(p) {
+				pl, hs := wildcardCharsTested(dd.Cond)
+				if pl || hs {
+					if polarity[dd.Cond] == nil {
+						polarity[dd.Cond] = map[bool]bool{}
+					}
+					polarity[dd.Cond][dd.Val] = true
+				}
+				plus, hash = plus || pl, hash || hs
+			}
+			if !plus || !hash {
+				bad = "the store is written on a path that never tested the topic for '+' and '#': " + fmtPath(p, c.P)
+			}
+		}
+		for cond, vals := range polarity {
+			if len(vals) > 1 {
+				bad = "the store is written whatever the wildcard test " + short(core.Term(cond), 60) + " says"
+			}
+		}
+		ru.Check(bad == "" && nW > 0, key, c.where(f, f), fmt.Sprintf("%d writing path(s), each behind a wildcard test", nW), bad+map[bool]string{true: "", false: " (no writing path)"}[nW > 0])
+	}
 }
 
 func checkC09(c *Ctx) {
@@ -416,6 +567,9 @@ func checkC09(c *Ctx) {
 		// R2
 		bad = ""
 		qs := c.callsToDeep(f, 3, d.queueBroadcast)
+		if len(qs) == 0 && outer != f {
+			qs = c.callsToDeep(outer, 3, d.queueBroadcast) // the helper holds write and event element, the mutator queues
+		}
 		if len(qs) == 0 {
 			bad = "no broadcast is queued"
 		}
@@ -439,11 +593,33 @@ func checkC09(c *Ctx) {
 		}
 		// elements put in the event vs. values written to the store
 		elems := map[ssa.Value]bool{}
-		for _, b := range f.Blocks {
-			for _, in := range b.Instrs {
-				if st, ok := in.(*ssa.Store); ok {
-					if _, ok := st.Addr.(*ssa.IndexAddr); ok && d.isEntryType(st.Val.Type()) {
-						elems[core.Strip(st.Val)] = true
+		fset := c.funcsDeepStop(outer, 3, func(g *ssa.Function) bool { return g.Package() != d.pkg || d.mutatorOf(g) != nil })
+		// bind: a helper's parameter is what this mutator's own code passes for it (the helper may serve other mutators too)
+		var bind func(v ssa.Value, depth int)
+		bind = func(v ssa.Value, depth int) {
+			v = core.Strip(v)
+			elems[v] = true
+			elems[deepStrip(v)] = true
+			prm, ok := v.(*ssa.Parameter)
+			if !ok || depth <= 0 {
+				return
+			}
+			idx := paramIdx(prm)
+			for _, h := range fset {
+				for _, cl := range core.CallsIn(h) {
+					if cl.Static == prm.Parent() && idx >= 0 && idx < len(cl.Common.Args) {
+						bind(cl.Common.Args[idx], depth-1)
+					}
+				}
+			}
+		}
+		for _, g := range fset {
+			for _, b := range g.Blocks {
+				for _, in := range b.Instrs {
+					if st, ok := in.(*ssa.Store); ok {
+						if _, ok := st.Addr.(*ssa.IndexAddr); ok && d.isEntryType(st.Val.Type()) {
+							bind(st.Val, 2)
+						}
 					}
 				}
 			}
@@ -466,10 +642,10 @@ func checkC09(c *Ctx) {
 				if v == nil {
 					continue
 				}
-				if elems[core.Strip(v)] {
+				if elems[core.Strip(v)] || elems[deepStrip(v)] {
 					match = true
 				}
-				if ld, ok := v.(*ssa.UnOp); ok && ld.Op == token.MUL && elems[ld.X] {
+				if ld, ok := v.(*ssa.UnOp); ok && ld.Op == token.MUL && (elems[ld.X] || elems[deepStrip(ld.X)]) {
 					match = true
 				}
 			}
@@ -484,6 +660,23 @@ func checkC09(c *Ctx) {
 			loops := core.Loops(f)
 			for _, w := range writes {
 				lw := core.InnermostLoop(loops, w.Block())
+				if lw == nil && outer != f && via != nil && core.InnermostLoop(core.Loops(outer), via.Instr.Block()) != nil {
+					// the loop body is a helper called once per iteration: write and append share the helper's invocation
+					inHelper := false
+					for _, b := range f.Blocks {
+						for _, in := range b.Instrs {
+							if st, ok := in.(*ssa.Store); ok {
+								if _, ok := st.Addr.(*ssa.IndexAddr); ok && d.isEntryType(st.Val.Type()) {
+									inHelper = true
+								}
+							}
+						}
+					}
+					if !inHelper {
+						bad = "entries are written to the store by a helper called in a loop, but the helper does not append them to the event"
+					}
+					continue
+				}
 				if lw == nil {
 					bad = "the store write of a bulk mutator is not in a loop"
 					continue
@@ -549,6 +742,7 @@ func checkC09(c *Ctx) {
 	c.ruleLoopAlias("C09-R4", fns, 2)
 	c.ruleSuccessWrites("C09-R9", d, "")
 	c.ruleEventLoopsAppendEveryEntry("C09-R10", d)
+	c.ruleRetainedKeysLiteral("C09-R11", d)
 
 	// R5
 	ru5 := c.R.Rule("C09-R5", "the memberlist.Broadcast type queued by mutators reports Invalidates == false for every other broadcast", "E11 constant return", 1)
